@@ -24,8 +24,11 @@ fn spec() -> Spec {
         kinds: vec![
             Kind { name: "paths", quick: 1_000, thorough: 25_000, serial: false },
             Kind { name: "cancel", quick: 150, thorough: 6_000, serial: false },
+            // (thorough tier only: one straight relocation of more than 70 000 planner steps - a tree with more vertices
+            // than fit into 16 bits; about half a minute per planning)
+            Kind { name: "long_connect", quick: 0, thorough: 3, serial: false },
         ],
-        rule: "paths: synthetic cell (coarse meshes, non-wrapping limits) x collision-free start/goal pairs in the layouts free space / obstacle placed on the straight joint-space line between them / goal within one step of the start / tiny try budget, step sizes 2..12 degrees; every scenario is planned repeatedly (thread_rng cannot be seeded) and each returned path is checked offline: exact endpoints, every node reported free, hops <= 3 steps, nodes within limits, and provenance: every interior node must appear in the spy log as a collision query made by the planner. cancel: flag raised before the call => Err for each of three calls sharing the flag; after an interrupted call a second call sharing the still raised flag => Err; flag raised by the spy at the k-th collision query (k swept) => no sampling event (constraints() call) may follow the raise and the result is Err unless the iteration in progress completed the connection. non-trivial = path with >= 3 nodes (paths) / cancellation that actually interrupted planning (cancel); distinct = hash(path) Workload additions: one raised flag shared by consecutive calls; goals one ulp / 1e-12 rad / a degree round trip from the start; layouts tiny_cell (box hugging a straight start-goal segment of 3..3.6 steps, 250 plannings per scene), no_environment (only the robot's own base in the way), narrow_limits planned 12 times per scene.",
+        rule: "paths: synthetic cell (coarse meshes, non-wrapping limits) x collision-free start/goal pairs in the layouts free space / obstacle placed on the straight joint-space line between them / goal within one step of the start / tiny try budget, step sizes 2..12 degrees; every scenario is planned repeatedly (thread_rng cannot be seeded) and each returned path is checked offline: exact endpoints, every node reported free, hops <= 3 steps, nodes within limits, and provenance: every interior node must appear in the spy log as a collision query made by the planner. cancel: flag raised before the call => Err for each of three calls sharing the flag; after an interrupted call a second call sharing the still raised flag => Err; flag raised by the spy at the k-th collision query (k swept) => no sampling event (constraints() call) may follow the raise and the result is Err unless the iteration in progress completed the connection. non-trivial = path with >= 3 nodes (paths) / cancellation that actually interrupted planning (cancel); distinct = hash(path) Workload additions: one raised flag shared by consecutive calls; goals one ulp / 1e-12 rad / a degree round trip from the start; layouts tiny_cell (box hugging a straight start-goal segment of 3..3.6 steps, 250 plannings per scene), no_environment (only the robot's own base in the way), narrow_limits planned 12 times per scene. Rounds 7-9: start / goal 1e-12..9e-11 rad beyond a limit; an unlimited joint next to goal_turn_away; asymmetric ranges reaching beyond +pi with a literal [from,to] node check; steps of 1.2..6 rad and of 1e-6..5e-5 rad; kind long_connect (thorough only: > 70 000 steps in one connect).",
         assumptions: vec![
             "the planner polls the flag once per iteration: 'no sampling after the raise' is the strongest form that is not racy against its own check point",
             "'reported free' is the same robot's collides()",
@@ -224,6 +227,17 @@ fn gen_scene(rng: &mut Rng, idx: u64) -> Option<Scene> {
         }
     }
     let max_try = if layout == "tiny_budget" { 1 + rng.usize(4) } else { 300 + rng.usize(500) };
+    // one free scene in ten is a short relocation (300 .. 1500 steps) planned with a step of 1e-6 .. 5e-5 rad
+    let (goal, step) = if layout == "free" && rng.usize(10) == 0 {
+        let st = rng.logu(1e-6, 5e-5);
+        let dir: [f64; 6] = std::array::from_fn(|_| rng.normal());
+        let n = dir.iter().map(|x| x * x).sum::<f64>().sqrt().max(1e-9);
+        let dist = st * rng.range(300.0, 1500.0);
+        let g: [f64; 6] = std::array::from_fn(|j| start[j] + dir[j] / n * dist);
+        if cell.build().collides(&g) || !cell.constraints.compliant(&g) { (goal, step) } else { (g, st) }
+    } else {
+        (goal, step)
+    };
     // one scene in twelve is planned with a step of 1.2 .. 6 rad (more than a sixth of a turn per hop)
     let step = if rng.usize(12) == 0 && layout != "tiny_cell" && layout != "narrow_limits" { rng.range(1.2, 6.0) } else { step };
     Some(Scene { cell, start, goal, layout, step, max_try })
@@ -238,7 +252,50 @@ fn build_spied(cell: &Cell, cb: Option<crate::spy::Callback>) -> (KinematicsWith
     (KinematicsWithShape { kinematics: k, body: cell.body() }, spy)
 }
 
+fn long_connect(idx: u64, rng: &mut Rng, mon: &mut Mon) {
+    let mut cell = Cell::generate(rng, idx, true, true, false);
+    cell.constraints = Constraints::new([-3.0; 6], [3.0; 6], 0.0);
+    cell.safety = SafetySpec::touch(CheckMode::FirstCollisionOnly);
+    let probe = cell.build();
+    let start = match free_posture(rng, &cell, &probe) {
+        Some(s) => s,
+        None => {
+            mon.inconclusive("long_connect:no-free-start");
+            return;
+        }
+    };
+    let step = 1e-5;
+    let mut goal = start;
+    let j = rng.usize(6);
+    goal[j] += if start[j] > 0.0 { -0.75 } else { 0.75 };
+    if probe.collides(&goal) {
+        mon.inconclusive("long_connect:goal-collides");
+        return;
+    }
+    let s = Scene { cell, start, goal, layout: "long_connect", step, max_try: 20 };
+    let (robot, spy) = build_spied(&s.cell, None);
+    let planner = RRTPlanner { step_size_joint_space: s.step, max_try: s.max_try, debug: false };
+    let stop = AtomicBool::new(false);
+    let res = guarded(|| planner.plan_rrt(&s.start, &s.goal, &robot, &stop));
+    let log = spy.take();
+    mon.count("long_connect.plans");
+    match res {
+        Err(msg) => mon.violation("plan:panic", "plan_rrt panicked", json!({"scene": scene_json(&s), "panic": msg})),
+        Ok(Err(_)) => mon.inconclusive("long_connect:planning-failed"),
+        Ok(Ok(path)) => {
+            mon.count_n("long_connect.nodes", path.len() as u64);
+            if check_path(mon, &s, &robot, &path, &log) {
+                mon.held_n(path.len() as u64);
+                mon.nontrivial(hash_combine(hash_f64s(&s.start), idx));
+            }
+        }
+    }
+}
+
 fn run_case(kind: &str, idx: u64, rng: &mut Rng, mon: &mut Mon, _tier: Tier) {
+    if kind == "long_connect" {
+        return long_connect(idx, rng, mon);
+    }
     let scene = match gen_scene(rng, idx) {
         Some(s) => s,
         None => {
